@@ -101,6 +101,20 @@ Theorem C05_relays_sent_signed_blinded_block :
 Proof. exact unblind_requests. Qed.
 Print Assumptions C05_relays_sent_signed_blinded_block.
 
+(* 4c. The first full block wins: what is submitted for a blinded block is submitted at the instant
+   of the earliest full-block answer any of the relays asked would give within its three tries. *)
+Theorem C05_first_full_block_wins :
+  forall c e d pr t sp w a i rl k cl,
+    e_proposal e = POk pr -> p_blinded pr = true ->
+    o_submit (propose c e d) = Some (t, sp) ->
+    e_auction e = AOk w a -> In i (candidates c w a) ->
+    nth_error (e_relays e) i = Some rl -> r_can rl = true ->
+    nth_error (free_calls (e_deadline e) relay_tries 0 (r_script rl)) k = Some cl ->
+    is_ok (k_out cl) = true ->
+    t <= k_finish cl.
+Proof. exact first_full_block_wins. Qed.
+Print Assumptions C05_first_full_block_wins.
+
 (* 5. Nothing is submitted if no relay returns a full block: neither when no relay would ever
    answer with one, nor when none of the calls actually made is answered with one before the
    deadline. *)
